@@ -30,7 +30,7 @@ CHECKS = {
    "One frame mutated at each position of each protocol state before and after encryption (lengths, inserted VarInts, byte substitutions, truncations, random bytes, RSA field classes) under four maximum frame sizes; monitors: panic of the handler task, largest single allocation requested while the handler is polled (counting global allocator), termination after EOF, bytes consumed after a refused length prefix. Evidence lists the state × mutation-class matrix.",
    "allocation requests are forwarded unchanged; a run that aborts the process would be inconclusive, not a violation", "DESIGN.md §5 C04"),
  "C05": ("vp-cipher", True, "exploration", "differential runtime monitor against an independent AES-128-CFB8; Miri on a reduced workload",
-   "CipherStream is driven through thousands of write/read schedules (partial accepts, Pending, chunked reads, mid-stream switch) over a plan-driven transport; bytes accepted by the transport and bytes surfaced to the reader are compared with an AES/CFB8 written from FIPS-197. Thorough additionally runs the same oracles under Miri.",
+   "CipherStream is driven through thousands of write/read schedules (partial accepts, Pending, chunked reads, mid-stream switch) over a plan-driven transport; bytes accepted by the transport and bytes surfaced to the reader are compared with an AES/CFB8 written from FIPS-197. The connection-level part of the property (the switch to encryption in mid-stream) is observed by vp-conn: clients that pipeline across the switch, received in chunks of every size. Thorough additionally runs the stream oracles under Miri.",
    "reference AES/CFB8 self-tested against FIPS-197 / SP 800-38A vectors and the aes crate", "DESIGN.md §5 C05"),
  "C06": ("vp-conn", True, "exploration", "grammar acceptor over decoded clientbound sequences; complete single-deviation enumeration",
    "A 40-line acceptor for the statement's grammar runs over the decoded clientbound sequence joined with the adapter log for baselines, the COMPLETE single-deviation space (position × 21 deviant packets × {instead of, followed by} the expected packet), unknown next states, configuration-phase words and blind pipelined words.",
@@ -48,13 +48,13 @@ CHECKS = {
    "Two-connection histories: the cookies stored on a freshly authenticated, routed connection are verified (independent HMAC, JSON fields, order before the Transfer) and presented again from the same IP / another IP / (thorough) after expiry; session cookie presence, content and id uniqueness are checked on both connections.",
    "timestamps compared with the harness wall clock ±1 s", "DESIGN.md §5 C10"),
  "C11": ("vp-hash", True, "exploration", "differential runtime monitor (independent SHA-1 signed-hex, python3 hashlib second opinion)",
-   "minecraft_hash is compared with an independent implementation on the published vectors, structural cases and millions of random triples; a histogram of digest classes actually hit (negative, leading zero nibbles, special first bytes) is part of the evidence; 10 k sampled triples are recomputed by python3 hashlib.",
+   "minecraft_hash is compared with an independent implementation on the published vectors, structural cases and millions of random triples; a histogram of digest classes actually hit (negative, leading zero nibbles, special first bytes) is part of the evidence; 10 k sampled triples are recomputed by python3 hashlib. The hash as it is *used towards the session service* is observed too: the serverId of the real has-joined requests (vp-mojang in serverId-only mode, long and non-ASCII server ids) must equal the reference hash.",
    "the single digest 0x80 00…00 is unreachable (SHA-1 pre-image)", "DESIGN.md §5 C11"),
  "C12": ("vp-mojang", True, "exploration", "request-line monitor on a loopback mock session server (hook H1)",
    "The real MojangAdapter is pointed (hook H1) at a loopback mock; the raw request line of every request is split by hand and must be GET /session/minecraft/hasJoined with exactly one username decoding to the claimed name and one serverId equal to the independently computed hash; the adapter's result is checked against the mock's answer.",
    "a value is accepted under plain percent-decoding or form decoding (the statement does not choose)", "DESIGN.md §5 C12"),
  "C13": ("vp-limiter", True, "exploration", "bound oracles over attempt histories under virtual time (hook H2)",
-   "Virtual-time attempt histories over 1-12 keys with boundary-dense inter-arrival classes; seven bound clauses (per-window count, 2×limit per interval, idle admission, lower bound, projection onto one key, duplicated rejections, tracked-key retention) are judged from attempt times and returned booleans only; an exact reference model is informational.",
+   "Virtual-time attempt histories over 1-12 keys with boundary-dense inter-arrival classes; seven bound clauses (per-window count, 2×limit per interval, idle admission, lower bound, projection onto one key, duplicated rejections, tracked-key retention) are judged from attempt times and returned booleans only; an exact reference model is informational. Which key a connection is charged to at the listener (effective client address, independence of other keys) is observed over real TCP by vp-net (admission clauses of C15).",
    "judged against the stated bounds, not against an exact model (f32 weighting)", "DESIGN.md §5 C13"),
  "C14": ("vp-net", True, "exploration", "real-TCP monitor against listeners started from Config values",
    "Listeners are started through passage::start from Config values; padded frames around the configured maximum, cookies around the configured expiry and under other secrets, and silent / dripping / stalled clients are driven over loopback; a connection still open at timeout + 5 s is a violation.",
@@ -63,10 +63,10 @@ CHECKS = {
    "Sequences of connections through three loopback peers announcing IPv4/IPv6 sources by PROXY v1/v2 (also split, LOCAL, missing, malformed, disabled version) against a Listener with limiter; served/refused is predicted from per-effective-IP counters, recorded adapter arguments and issued cookies are compared with the announced source; a concurrent burst must serve exactly `limit`.",
    "the limiter window never rolls during a run", "DESIGN.md §5 C15"),
  "C16": ("vp-net", True, "fault_enumeration", "stall-point enumeration with a latency probe over real TCP",
-   "Stallers are placed at each enumerated stall point (before/inside/after the PROXY header, mid-frame in each phase, unanswered Keep Alives) and held for 12 s; a well-behaved probe must be served within 3 s.",
+   "Stallers (1, 8, 64, 300, 600) are placed at each enumerated stall point (before/inside/after the PROXY header, mid-frame in each phase, unanswered Keep Alives) and held for 12 s while more arrive; a flood from a rate-limited address is a further hostile behaviour; a well-behaved probe must be served within 3 s.",
    "scheduler lateness above half the slack makes the verdict inconclusive", "DESIGN.md §5 C16"),
  "C17": ("vp-net", True, "fault_enumeration", "cancel-instant enumeration over real TCP with server-side timestamps",
-   "In-flight connections at enumerated stages, cancellation at random and adversarial instants; connections started ≥ 50 ms after cancel() returned must not be served, cooperating clients must still be transferred, and Listener::listen must not return before the last in-flight connection finished nor later than timeout + 5 s.",
+   "In-flight connections at enumerated stages, cancellation at random and adversarial instants; connections started ≥ 50 ms after cancel() returned must not be served, cooperating clients must still be transferred, and Listener::listen must not return before the last in-flight connection finished nor later than timeout + 5 s. Further families: connections accepted before the request whose PROXY header is still pending (hook H3), a connect flood across the request, a drain longer than any built-in default, and SIGINT sent to passage::start running in a child process (ctrl-c wiring).",
    "connections racing the signal within 50 ms are not judged", "DESIGN.md §5 C17"),
  "C18": ("vp-route", True, "exploration", "differential runtime monitor against an independent rule evaluator",
    "Filter chains and strategies are built from configuration values (from_config, and Config::read from generated files) and compared with a direct transcription of the statement over tens of thousands of probes.",
